@@ -37,7 +37,7 @@ rows = {}
 mp = os.path.join(V, "refactorings", "MATRIX.md")
 if os.path.exists(mp):
     for line in open(mp):
-        m = re.match(r"\| (C\d+-2?[ABC]) \| (.*) \|$", line.strip())
+        m = re.match(r"\| (C\d+-[23]?[ABC]) \| (.*) \|$", line.strip())
         if m:
             rows[m.group(1)] = m.group(2)
 with cf.ThreadPoolExecutor(max_workers=4) as ex:
